@@ -7,6 +7,7 @@ import (
 	"fmt"
 	"os"
 	"runtime"
+	"path/filepath"
 	"sort"
 	"strings"
 	"sync"
@@ -1118,6 +1119,29 @@ func restoreFromSavepointDepth(p Program, c *hx.Case, fs *storage.MemoryFilesyst
 	if cfg.Workers != p.Cfg.Workers {
 		st.DifferentWorkers++
 	}
+	// The artifact as it is when the job is started from it: it has to stay that
+	// way whatever the job does afterwards (a savepoint is there to be used again).
+	artLoc := NewMemLoc(fs, "/job")
+	artDir := filepath.Dir(strings.TrimPrefix(uri, "memory://")) + "/"
+	artifact := map[string]string{}
+	for _, f := range artLoc.Files() {
+		if strings.HasPrefix(f, artDir) {
+			b, _ := artLoc.Read(f)
+			artifact[f] = string(b)
+		}
+	}
+	artifactIntact := func() error {
+		for f, want := range artifact {
+			b, rerr := artLoc.Read(f)
+			if rerr != nil {
+				return hx.Errf("file %s of the savepoint the job was started from is gone after the job went on to take checkpoints of its own (%v): the savepoint cannot be used again", f, rerr)
+			}
+			if string(b) != want {
+				return hx.Errf("file %s of the savepoint the job was started from was changed by the job that was started from it", f)
+			}
+		}
+		return nil
+	}
 	w, err := NewWorld(cfg, data, uri, fs)
 	if err != nil {
 		return st, hx.Errf("starting a job from savepoint %s after all working storage was deleted: %v", uri, err)
@@ -1300,6 +1324,12 @@ func restoreFromSavepointDepth(p Program, c *hx.Case, fs *storage.MemoryFilesyst
 		if got[k] != n {
 			return fail(hx.Errf("after savepoint restore and the rest of the input: %s counts %d records, the input has %d", k, got[k], n))
 		}
+	}
+	if len(artifact) == 0 {
+		return fail(hx.Errf("no file of savepoint %s was found under %s", uri, artDir))
+	}
+	if err := artifactIntact(); err != nil {
+		return fail(err)
 	}
 	if p.Chain != 2 || depth >= 1 {
 		return st, nil
